@@ -21,6 +21,7 @@ import (
 	frrk8s "go.universe.tf/metallb/internal/bgp/frrk8s"
 	"go.universe.tf/metallb/internal/logging"
 	"go.universe.tf/metallb/internal/verifkit"
+	apierrors "k8s.io/apimachinery/pkg/api/errors"
 	metav1 "k8s.io/apimachinery/pkg/apis/meta/v1"
 	"k8s.io/apimachinery/pkg/runtime"
 	"k8s.io/client-go/util/workqueue"
@@ -67,11 +68,51 @@ func vfkAbs(cfg *frrv1beta1.FRRConfiguration) int {
 }
 
 type vfkTarget struct {
+	base   client.WithWatch
 	r      *FRRK8sReconciler
 	cancel context.CancelFunc
 }
 
-func (t *vfkTarget) Submit(c int) { t.r.UpdateConfig(vfkConfig(c)) }
+func (t *vfkTarget) Submit(c int) {
+	if c < 0 {
+		t.tamper(c)
+		return
+	}
+	t.r.UpdateConfig(vfkConfig(c))
+}
+
+// tamper is the environment of the k8s instance: somebody else deletes (-3) or overwrites (-4) the
+// node's FRRConfiguration through a client that bypasses the logged reload action, then the watch
+// event arrives.  The reconciler's mutex is held while the object changes, so the change falls
+// between two reconciles, never inside one.
+func (t *vfkTarget) tamper(c int) {
+	ctx := context.Background()
+	proto := vfkConfig(0)
+	t.r.Lock()
+	if c == -3 {
+		if err := t.base.Delete(ctx, &proto); err != nil && !apierrors.IsNotFound(err) {
+			panic(err)
+		}
+	} else {
+		foreign := frrv1beta1.FRRConfigurationSpec{
+			BGP: frrv1beta1.BGPConfig{Routers: []frrv1beta1.Router{{ASN: 64999, Prefixes: []string{"198.51.100.0/24"}}}},
+		}
+		cur := frrv1beta1.FRRConfiguration{}
+		err := t.base.Get(ctx, client.ObjectKey{Name: proto.Name, Namespace: proto.Namespace}, &cur)
+		switch {
+		case apierrors.IsNotFound(err):
+			proto.Spec = foreign
+			verifkit.Must(t.base.Create(ctx, &proto))
+		case err != nil:
+			panic(err)
+		default:
+			cur.Spec = foreign
+			verifkit.Must(t.base.Update(ctx, &cur))
+		}
+	}
+	t.r.Unlock()
+	t.r.reconcileChan <- NewReloadEvent()
+}
 func (t *vfkTarget) NoConf()      { t.r.reconcileChan <- NewReloadEvent() }
 func (t *vfkTarget) Close(clean bool) {
 	if clean {
@@ -89,7 +130,8 @@ func vfkMake(env *verifkit.DebEnv) verifkit.DebTarget {
 		}
 		return nil
 	}
-	cl := fake.NewClientBuilder().WithScheme(scheme).WithInterceptorFuncs(interceptor.Funcs{
+	base := fake.NewClientBuilder().WithScheme(scheme).Build()
+	cl := interceptor.NewClient(base, interceptor.Funcs{
 		Create: func(ctx context.Context, c client.WithWatch, obj client.Object, opts ...client.CreateOption) error {
 			if err := reload(obj); err != nil {
 				return err
@@ -102,7 +144,7 @@ func vfkMake(env *verifkit.DebEnv) verifkit.DebTarget {
 			}
 			return c.Update(ctx, obj, opts...)
 		},
-	}).Build()
+	})
 
 	r := &FRRK8sReconciler{
 		Client:          cl,
@@ -127,7 +169,7 @@ func vfkMake(env *verifkit.DebEnv) verifkit.DebTarget {
 	verifkit.Must(c.Watch(source.Channel(r.reconcileChan, &handler.EnqueueRequestForObject{})))
 	ctx, cancel := context.WithCancel(context.Background())
 	go func() { _ = c.Start(ctx) }()
-	return &vfkTarget{r: r, cancel: cancel}
+	return &vfkTarget{base: base, r: r, cancel: cancel}
 }
 
 func TestVerifFrrk8sDebounce(t *testing.T) {
